@@ -241,6 +241,7 @@ package evm
 //@ func (s *StateDBWrapper) AddSlotToAccessList(addr, slot)
 //@   requires s != nil && s.StateDB != nil
 //@   modifies everything
+//@   preserves StateDBWrapper.*
 //@   assert@call(AddSlotToAccessList,0): $arg0 == s.StateDB && $arg1 == addr && $arg2 == slot   [C17]
 
 //@ func (s *StateDBWrapper) AddLog(log)
@@ -312,3 +313,40 @@ package evm
 //@   trusted
 //@   modifies everything
 //@   preserves RigoApp.*, BlockContext.feeSum
+
+// ---- the message handed to the interpreter (C17, C16): value, gas limit, price and nonce are the transaction's;
+// the fee cap and the tip are zero (the fee is charged by the native layer, the interpreter credits no coinbase tip)
+//@ func evmMessage(_from, _to, nonce, gas, gasPrice, amt, data, isFake)
+//@   requires gasPrice != nil && amt != nil
+//@   assumes gasFeeCap != nil && gasTipCap != nil && u(gasFeeCap) == 0 && u(gasTipCap) == 0
+//@   modifies everything
+//@   assert@call(NewMessage,0): $arg0 == _from && $arg1 == _to && $arg2 == nonce && bigval($arg3) == u(amt) && $arg4 == gas && bigval($arg5) == u(gasPrice) && bigval($arg6) == 0 && bigval($arg7) == 0 && $arg10 == isFake   [C17,C16]
+
+//@ func blockKey(h)
+//@   trusted
+//@   pure
+//@   ensures result != nil && content(result) == evmblockkey(h)
+
+// ---- a historical EVM view (C17, C19): the EVM root and the native account view are both those of the height asked for
+//@ func (ctrler *EVMCtrler) ImmutableStateAt(height)
+//@   requires ctrler != nil && ctrler.metadb != nil && ctrler.acctHandler != nil
+//@   modifies everything
+//@   assert@call(Get,0): content($arg0) == evmblockkey(height)                                                 [C17,C19]
+//@   assert@call(ImmutableAcctCtrlerAt,0): $arg0 == height                                                     [C17,C19]
+//@   assert@store(StateDBWrapper.immutable,0): $value == true                                                   [C17,C19]
+//@   assert@store(StateDBWrapper.acctHandler,0): $value == immuAcctHandler                                      [C17,C19]
+//@   assert@store(StateDBWrapper.StateDB,0): $value == stateDB                                                  [C17,C19]
+
+// ---- access list preparation (C17): the sender, the destination, every precompiled address and every listed address
+// are registered with the wrapper (loaded from / written back to the native ledger) before the interpreter's own
+// state database is prepared with the same arguments
+//@ func (s *StateDBWrapper) PrepareAccessList(addr, dest, precompiles, txAccesses)
+//@   requires wf_wrapper(s) && s.StateDB != nil
+//@   modifies everything
+//@   assert@call(addAccessedObjAddr,0): $arg0 == s && $arg1 == addr                                             [C17]
+//@   assert@call(addAccessedObjAddr,1): $arg0 == s && dest != nil                                              [C17]
+//@   assert@call(addAccessedObjAddr,2): $arg0 == s && $arg1 == preaddr                                          [C17]
+//@   assert@call(addAccessedObjAddr,3): $arg0 == s && $arg1 == el.Address                                       [C17]
+//@   assert@call(PrepareAccessList,0): $arg0 == s.StateDB && $arg1 == addr && $arg2 == dest                     [C17]
+//@   loop 0,1,2: invariant wf_wrapper(s) && s.StateDB != nil
+//@   must@call(PrepareAccessList,0): true                                                                       [C17]
